@@ -407,6 +407,20 @@ def gen_scenarios(rng):
         ops.append({"op": "manage", "now": now, "kind": "requeue_dead", "ids": ["d0", "d%d" % (n - 1)]})
         ops.append({"op": "stats", "now": now})
         hs.append({"cfg": cfg, "ops": ops, "snap_every": 1, "c13_ok": True})
+    # S9: more (route, target) buckets than Stats lists (ten), the oldest / earliest-due queued message alone in a small bucket
+    for k in range(2):
+        now = BASE + rng.randrange(1000) * SEC
+        ops = [{"op": "enqueue", "now": now, "enq": [_enq("lone", route="zz", target="t9", body=99, recv=now - 7200 * SEC, nxt=now - 5400 * SEC)]}]
+        nb = rng.choice([11, 12, 14])
+        for b in range(nb):
+            for j in range(2 + (b % 2)):
+                now += MS
+                ops.append({"op": "enqueue", "now": now, "enq": [_enq("s%d_%d" % (b, j), route="r%d" % (b % 4), target="t%d" % (b // 4), body=100 + b)]})
+        now += SEC
+        ops.append({"op": "stats", "now": now})
+        ops.append({"op": "dequeue", "now": now, "route": "zz", "target": "", "batch": 1, "ttl": 30 * SEC})
+        ops.append({"op": "stats", "now": now + 1})
+        hs.append({"cfg": _cfg0(), "ops": ops, "snap_every": 1, "c13_ok": True})
     # S8: ONE batch lease operation presents leases that have run out (and were not swept: no dequeue in between) together with leases
     #     that are valid for minutes: each is judged on its own - the expired ones go back to the queue, the valid ones are settled
     for k in range(3):
